@@ -14,7 +14,7 @@ from vmon.monitors import c09_spies as S
 # kinds whose move_cursor_to_coords exists (directly or by delegation): clause 3 applies only when
 # the whole path root..leaf is made of these
 CURSOR_MOVERS = {"Pile", "Columns", "Filler", "Padding", "BoxAdapter", "GridFlow", "AttrMap", "LineBox"}
-LEAF_KINDS = {"spy", "Edit", "Icon", "Button", "CheckBox"}
+LEAF_KINDS = {"spy", "Edit", "Icon", "Button", "CheckBox", "Empty"}
 MAX_LEAVES = 40
 
 
@@ -42,7 +42,8 @@ class Node:
             yield from c.walk()
 
     def leaves(self):
-        return [n for n in self.walk() if n.is_leaf()]
+        # "Empty" (a Text("") that takes no room by design) draws nothing and is not a judged leaf
+        return [n for n in self.walk() if n.is_leaf() and n.kind != "Empty"]
 
     def path_kinds(self):
         """kinds of the ancestors, root first (excluding self)"""
@@ -52,6 +53,14 @@ class Node:
             out.append(n)
             n = n.parent
         return out[::-1]
+
+
+def _placeholder(w):
+    """a non-selectable widget of the same sizing kind, to be replaced by assigning original_widget"""
+    sz = w.sizing()
+    if urwid.FLOW in sz or urwid.FIXED in sz:
+        return urwid.Text("")
+    return urwid.SolidFill(" ")
 
 
 def _t(x):
@@ -110,6 +119,10 @@ class Builder:
         text, mask, as_bytes = edit_text_of(r, g)
         w = S.SpyEdit(sid, g, self.log, r.get("cap", 0), r["len"], r.get("pos", 0), r.get("wrap", "any"), bool(r.get("capsp")), text, mask, as_bytes)
         return self._leaf(r, w, sid, g)
+
+    def b_Empty(self, r):
+        # an empty status field: packs to 0 columns, so a ('pack', ...) column holding it is hidden
+        return Node("Empty", urwid.Text(""), r)
 
     def b_Icon(self, r):
         sid, g = self.glyph()
@@ -207,12 +220,21 @@ class Builder:
             kw.update(lline="", tlcorner="", blcorner="")
         if "r" not in sides:
             kw.update(rline="", trcorner="", brcorner="")
-        w = urwid.LineBox(c.w, title=r.get("title", ""), **kw)
+        if r.get("swap"):
+            w = urwid.LineBox(_placeholder(c.w), title=r.get("title", ""), **kw)
+            w.original_widget = c.w
+        else:
+            w = urwid.LineBox(c.w, title=r.get("title", ""), **kw)
         return Node("LineBox", w, r, [c])
 
     def b_AttrMap(self, r):
         c = self.build(r["c"])
-        return Node("AttrMap", urwid.AttrMap(c.w, "a", "f"), r, [c])
+        if r.get("swap"):
+            w = urwid.AttrMap(_placeholder(c.w), "a", "f")
+            w.original_widget = c.w
+        else:
+            w = urwid.AttrMap(c.w, "a", "f")
+        return Node("AttrMap", w, r, [c])
 
     def b_GridFlow(self, r):
         cells = [self.build(c) for c in r["cells"]]
@@ -321,6 +343,18 @@ def kinds_of(r, out=None):
             out.add("Edit-long-caption")
     if r["k"] in ("Pile", "Columns") and any(o[0] == "weight" and o[1] == 0 for o, _c in r["items"]):
         out.add(r["k"] + "-weight0")
+    if r["k"] == "Padding" and isinstance(r.get("width"), int):
+        out.add("Padding-given-width")
+        if r.get("fixedw"):
+            out.add("Padding-given-width-as-fixed")
+    if r.get("swap"):
+        out.add("decoration-child-replaced")
+    if r["k"] == "Columns":
+        z = [i for i, (_o, c) in enumerate(r["items"]) if c["k"] == "Empty"]
+        if z:
+            out.add("Columns-zero-width-column")
+            if any(0 < i < len(r["items"]) - 1 for i in z) and r.get("div", 0) > 0:
+                out.add("Columns-interior-zero-width-column-with-dividers")
     for c in children_of(r):
         kinds_of(c, out)
     return out
@@ -346,6 +380,8 @@ def need(r):
         if r.get("wh"):
             return r["wh"], _ceil_div(total, r["wh"]) + 1
         return total - 1, 1
+    if k == "Empty":
+        return 0, 1
     if k == "Icon":
         return max(1, r["len"]), 1
     if k in ("Button", "CheckBox"):
@@ -555,22 +591,28 @@ class Gen:
             if self.scroll:
                 kinds += ["ScrollBar", "Scrollable"]
         elif mode == "flow":
-            kinds = ["Pile", "Pile", "Columns", "Columns", "Padding", "LineBox", "AttrMap", "BoxAdapter", "GridFlow", "Filler"]
+            kinds = ["Pile", "Pile", "Columns", "Columns", "Padding", "LineBox", "AttrMap", "BoxAdapter", "GridFlow", "Filler", "Overlay"]
         else:
-            kinds = ["AttrMap", "Pile", "Columns", "Padding"]
+            kinds = ["AttrMap", "Pile", "Columns", "Padding", "Overlay"]
         k = rng.choice(kinds)
         r = getattr(self, "g_" + k)(mode, depth - 1)
         if mode == "box":
             r["_box"] = True
         return r
 
+    def swap(self, r):
+        # the decoration is first built around a non-selectable placeholder, then original_widget is assigned (a mutation)
+        if self.rng.random() < 0.15:
+            r["swap"] = True
+        return r
+
     def g_AttrMap(self, mode, d):
-        return {"k": "AttrMap", "c": self.tree(mode, d)}
+        return self.swap({"k": "AttrMap", "c": self.tree(mode, d)})
 
     def g_LineBox(self, mode, d):
         rng = self.rng
         sides = "tlrb" if rng.random() < 0.6 else "".join(s for s in "tlrb" if rng.random() < 0.6)
-        return {"k": "LineBox", "c": self.tree(mode, d), "sides": sides, "title": rng.choice(["", "", "X", "XX"]) if "t" in sides else ""}
+        return self.swap({"k": "LineBox", "c": self.tree(mode, d), "sides": sides, "title": rng.choice(["", "", "X", "XX"]) if "t" in sides else ""})
 
     def g_Filler(self, mode, d):
         rng = self.rng
@@ -597,8 +639,14 @@ class Gen:
         r = {"k": "Padding", "align": self.align(), "left": rng.choice([0, 0, 1, 2]), "right": rng.choice([0, 0, 1, 3])}
         x = rng.random()
         if mode == "fixed":
-            r["c"] = self.tree("fixed", d)
-            r["width"] = "pack"
+            if x < 0.4:
+                # a given width makes the Padding a fixed widget around a flow child rendered at (width,)
+                r["c"] = self.tree("flow", d)
+                r["width"] = max(need(r["c"])[0], rng.randint(1, 10))
+                r["fixedw"] = True  # marker only: this Padding is meant to be used at size ()
+            else:
+                r["c"] = self.tree("fixed", d)
+                r["width"] = "pack"
             return r
         if mode == "flow" and x < 0.12:
             r["c"] = self.tree("fixed", d)
@@ -679,11 +727,17 @@ class Gen:
             items.append([opt, child])
         if mode == "flow" and len(box) == len(items):
             items.append([["weight", 1], self.tree("flow", d)])
+        if mode != "fixed" and rng.random() < 0.22:
+            # zero-width columns (an empty status field that packs to nothing, or ('given', 0)) at any position
+            for _ in range(rng.choice([1, 1, 2])):
+                at = rng.randint(0, len(items))
+                items.insert(at, [rng.choice([["pack"], ["pack"], ["given", 0]]), {"k": "Empty"}])
+                box = [b + 1 if b >= at else b for b in box]
         return {
             "k": "Columns",
             "items": items,
-            "div": rng.choice([0, 0, 1, 2]),
-            "focus": rng.randrange(len(items)) if rng.random() < 0.7 else None,
+            "div": rng.choice([0, 0, 1, 1, 2, 3]),
+            "focus": rng.choice([i for i, (_o, c) in enumerate(items) if c["k"] != "Empty"]) if rng.random() < 0.7 else None,
             "box": box,
             "minw": rng.choice([1, 1, 1, 2, 3]),
         }
@@ -714,6 +768,34 @@ class Gen:
             "b": rng.choice([0, 0, 2]),
         }
         x = rng.random()
+        if mode == "flow":
+            # an Overlay is a flow widget when its height follows from the top widget: flow top + 'pack', or box top + given height
+            if x < 0.65:
+                r["top"] = self.tree("flow", d)
+                r["width"] = rng.choice([rng.randint(1, 10), ["relative", rng.choice([40, 60, 90])]])
+                r["height"] = "pack"
+            else:
+                r["top"] = self.tree("box", d)
+                r["width"] = rng.choice([rng.randint(1, 10), ["relative", rng.choice([40, 60, 90])]])
+                r["height"] = rng.randint(1, 5)
+            if rng.random() < 0.2:
+                r["minw"] = rng.randint(1, 6)
+            return r
+        if mode == "fixed":
+            # ... and a fixed widget when its width follows too: fixed top + 'pack'/'pack', or a given width
+            if x < 0.4:
+                r["top"] = self.tree("fixed", d)
+                r["width"] = "pack"
+                r["height"] = "pack"
+            elif x < 0.75:
+                r["top"] = self.tree("flow", d)
+                r["width"] = rng.randint(2, 10)
+                r["height"] = "pack"
+            else:
+                r["top"] = self.tree("box", d)
+                r["width"] = rng.randint(2, 10)
+                r["height"] = rng.randint(1, 5)
+            return r
         if x < 0.4:
             r["top"] = self.tree("box", d)
             r["width"] = rng.choice([rng.randint(1, 10), ["relative", rng.choice([40, 60, 90])]])
